@@ -19,16 +19,16 @@ import (
 
 const scAddr = storagesc.ADDRESS
 
-func keyAlloc(id string) string          { return storagesc.GetAllocKey(scAddr, id) }
-func keyProvider(id string) string       { return "provider:" + id }
-func keyBlobberSP(id string) string      { return "blobber:stakepool:" + id }
-func keyValidatorSP(id string) string    { return "validator:stakepool:" + id }
-func keyChallengePool(id string) string  { return scAddr + ":challengepool:" + id }
-func keyReadPool(client string) string   { return scAddr + ":readpool:" + client }
-func keyAssigner(name string) string     { return scAddr + ":freestorageredeemed:" + name }
+func keyAlloc(id string) string           { return storagesc.GetAllocKey(scAddr, id) }
+func keyProvider(id string) string        { return "provider:" + id }
+func keyBlobberSP(id string) string       { return "blobber:stakepool:" + id }
+func keyValidatorSP(id string) string     { return "validator:stakepool:" + id }
+func keyChallengePool(id string) string   { return scAddr + ":challengepool:" + id }
+func keyReadPool(client string) string    { return scAddr + ":readpool:" + client }
+func keyAssigner(name string) string      { return scAddr + ":freestorageredeemed:" + name }
 func keyAllocChallenges(id string) string { return scAddr + ":allocation_challenges:" + id }
-func keyChallenge(id string) string      { return scAddr + "storage_challenge:" + id }
-func keyConfig() string                  { return scAddr + encryption.Hash("storagesc_config") }
+func keyChallenge(id string) string       { return scAddr + "storage_challenge:" + id }
+func keyConfig() string                   { return scAddr + encryption.Hash("storagesc_config") }
 func keyReadConn(blobber, client, alloc string) string {
 	return scAddr + encryption.Hash(blobber+client+alloc)
 }
@@ -274,18 +274,18 @@ type View struct {
 
 // Viewer learns the keys of interest from hook H1 and decodes snapshots on demand.
 type Viewer struct {
-	w          *ledger.World
-	allocIDs   []string // in order of first insertion
-	allocSeen  map[string]bool
-	blobIDs    []string
-	blobSeen   map[string]bool
-	valIDs     []string
-	valSeen    map[string]bool
-	rpClients  map[string]bool
-	readConns  map[string]bool
-	assigners  map[string]bool
-	cache      *View
-	Prev, Cur  *View // maintained by the observer: before / after the last applied transaction
+	w         *ledger.World
+	allocIDs  []string // in order of first insertion
+	allocSeen map[string]bool
+	blobIDs   []string
+	blobSeen  map[string]bool
+	valIDs    []string
+	valSeen   map[string]bool
+	rpClients map[string]bool
+	readConns map[string]bool
+	assigners map[string]bool
+	cache     *View
+	Prev, Cur *View // maintained by the observer: before / after the last applied transaction
 }
 
 func NewViewer(w *ledger.World) *Viewer {
